@@ -147,6 +147,12 @@ theorem copy_like_equal (w : World) (t s : Nat) (w' : World) (hsc : Scoped w) (h
     (h : w.copyLike t s = .ok w') : CopyLikeResult w t s w' :=
   copyLike_result w t s w' hsc ht hs hwt hws hap h
 
+/-- `copy_like` leaves its source as it was (same hypotheses; target and source different streams). -/
+theorem copy_like_source_unchanged (w : World) (t s : Nat) (w' : World) (hsc : Scoped w) (ht : t < w.nS)
+    (hs : s < w.nS) (hwt : WFImol w (w.strs t).imol) (hws : WFImol w (w.strs s).imol) (hap : Apart w t s)
+    (hts : t ≠ s) (h : w.copyLike t s = .ok w') : w'.observe s = w.observe s :=
+  copyLike_source w t s w' hsc ht hs hwt hws hap hts h
+
 /-- The exact label is used whenever the target has it. -/
 theorem phase_lookup_exact (ps : List Ph) (p : Ph) (h : p ∈ ps) : phIdx ps p = ps.idxOf? p := by
   obtain ⟨i, hi⟩ := idxOf?_some_of_mem ps p h
@@ -301,11 +307,53 @@ theorem pickle_fresh_and_frame (w : World) (s : Nat) (hsc : Scoped w) :
   · intro j hj
     exact frame_of_writes hsc h1 j hj (fun h => h) (fun _ _ h => h)
 
+/-- Objects pickled slot by slot (`Thermo`, `Chemical`, reactions): every slot named in the recipe
+has the same value after the round trip, and no other slot is set.  (So the round trip preserves the
+observable state exactly when that state is a function of the listed slots — which the oracle checks
+on the real `Reaction`, `ParallelReaction`, `Chemical` and `Thermo` objects.) -/
+theorem slot_pickle_roundtrip {V : Type} (slots : List Nat) (obj : Nat → Option V) (k : Nat) :
+    (k ∈ slots → newFromState (getState slots obj) k = obj k) ∧
+    (k ∉ slots → newFromState (getState slots obj) k = none) := by
+  induction slots with
+  | nil => simp [newFromState, getState]
+  | cons x xs ih =>
+    by_cases hk : k = x
+    · subst hk; simp [newFromState, getState, List.lookup]
+    · have hne : (k == x) = false := by simp [hk]
+      simp only [newFromState, getState, List.map_cons, List.lookup, hne] at ih ⊢
+      simp [hk]
+      exact ih
+
 /-! ## Frame and histories -/
 
 /-- Every stream of every reachable world refers to allocated objects only. -/
 theorem reachable_scoped (ops : List Op) : Scoped (World.init.run ops) :=
   scoped_run ops World.init scoped_init
+
+/-- Every stream of every reachable world is well formed (sorted duplicate-free phase tuple, one
+distinct row object per phase): the well-formedness hypotheses of `copy_like_equal` and
+`pickle_roundtrip` hold along every history. -/
+theorem reachable_wf (ops : List Op) : WFAll (World.init.run ops) :=
+  wfAll_run ops World.init scoped_init wfAll_init
+
+/-- Pickling round-trips for every stream of every reachable world. -/
+theorem pickle_roundtrip_reachable (ops : List Op) (s : Nat) (hs : s < (World.init.run ops).nS) :
+    ((World.init.run ops).pickle s).1.observe (World.init.run ops).nS = (World.init.run ops).observe s := by
+  apply (pickle_roundtrip _ s _).2
+  have := reachable_wf ops s hs
+  unfold WFImol at this
+  unfold WFStream
+  cases hm : (World.init.run ops).imols ((World.init.run ops).strs s).imol with
+  | chem ph r => trivial
+  | mat ps a => rw [hm] at this; exact ⟨this.1, this.2.1⟩
+
+/-- `copy_like` makes the conditions equal for every pair of streams of every reachable world that
+share no flow data (the remaining hypothesis is the absence of links between the two). -/
+theorem copy_like_equal_reachable (ops : List Op) (t s : Nat) (w' : World)
+    (ht : t < (World.init.run ops).nS) (hs : s < (World.init.run ops).nS)
+    (hap : Apart (World.init.run ops) t s) (h : (World.init.run ops).copyLike t s = .ok w') :
+    CopyLikeResult (World.init.run ops) t s w' :=
+  copy_like_equal _ t s w' (reachable_scoped ops) ht hs (reachable_wf ops t ht) (reachable_wf ops s hs) hap h
 
 /-- No operation changes a stream it does not mention and that shares no object with the
 streams it mentions ("no later change is visible" at the level of one operation). -/
